@@ -47,6 +47,15 @@ thread_local! {
     static LAST_PANIC: std::cell::RefCell<String> = std::cell::RefCell::new(String::new());
 }
 
+static PANIC_LOG_FD: std::sync::atomic::AtomicI32 = std::sync::atomic::AtomicI32::new(-1);
+
+/// panics are also appended to this fd as "P <message>" lines, so that the driver can classify a
+/// worker death that follows a panic in a function that cannot unwind
+pub fn set_panic_log(file: &std::fs::File) {
+    use std::os::unix::io::AsRawFd;
+    PANIC_LOG_FD.store(file.as_raw_fd(), Ordering::SeqCst);
+}
+
 pub fn install_panic_hook() {
     std::panic::set_hook(Box::new(|info| {
         let loc = info.location().map(|l| format!("{}:{}", l.file().rsplit("/repo/").next().unwrap_or(l.file()), l.line())).unwrap_or_default();
@@ -57,6 +66,14 @@ pub fn install_panic_hook() {
         } else {
             "panic".to_string()
         };
+        let fd = PANIC_LOG_FD.load(Ordering::SeqCst);
+        if fd >= 0 && !msg.contains("cannot unwind") {
+            let line = format!("P {} @ {}\n", msg.replace('\n', " "), loc);
+            unsafe { libc::write(fd, line.as_ptr() as *const _, line.len()) };
+        }
+        if msg.contains("cannot unwind") {
+            return;
+        }
         LAST_PANIC.with(|p| *p.borrow_mut() = format!("{} @ {}", msg, loc));
     }));
 }
@@ -112,8 +129,10 @@ pub fn worker_main(args: &[String]) -> i32 {
     let start: u64 = args[4].parse().unwrap();
     let end: u64 = args[5].parse().unwrap();
     let mut out = std::fs::OpenOptions::new().create(true).append(true).open(&args[6]).expect("open outfile");
+    set_panic_log(&out);
     crate::capture::redirect_stdout();
     install_panic_hook();
+    tune_allocator();
     let mut cov = Cov::new();
     let mut buf = String::new();
     for i in start..end {
@@ -137,6 +156,14 @@ pub fn worker_main(args: &[String]) -> i32 {
     0
 }
 
+/// keep the allocator from mapping/unmapping per case (page-table operations are very expensive in this VM)
+pub fn tune_allocator() {
+    unsafe {
+        libc::mallopt(libc::M_MMAP_THRESHOLD, 1 << 30);
+        libc::mallopt(libc::M_TRIM_THRESHOLD, 1 << 30);
+    }
+}
+
 pub fn runcase_main(args: &[String]) -> i32 {
     // runcase <casefile> <focus> <outfile>
     let text = match std::fs::read_to_string(&args[0]) {
@@ -155,12 +182,22 @@ pub fn runcase_main(args: &[String]) -> i32 {
         Some(s) => s,
         None => return 2,
     };
+    let plog = std::fs::OpenOptions::new().create(true).append(true).open(&args[2]).expect("open outfile");
+    set_panic_log(&plog);
     crate::capture::redirect_stdout();
-    install_panic_hook();
+    if std::env::var("GBSIM_VERBOSE").is_err() {
+        install_panic_hook();
+    }
     let mut cov = Cov::new();
     let vs = run_case_here(sc, &case, &args[1], false, &mut cov);
+    if std::env::var("GBSIM_VERBOSE").is_ok() {
+        for v in &vs {
+            eprintln!("{} : {}", v.signature, v.detail);
+        }
+        eprintln!("{}", cov.to_line());
+    }
     let arr: Vec<Value> = vs.iter().map(|v| json!({"property": v.property, "signature": v.signature, "detail": v.detail})).collect();
-    let _ = std::fs::write(&args[2], format!("{}\nDONE\n", Value::Array(arr)));
+    let _ = (&plog).write_all(format!("RESULT {}\nDONE\n", Value::Array(arr)).as_bytes());
     0
 }
 
@@ -212,7 +249,7 @@ pub fn run_case_isolated(sc: &dyn Scenario, case: &Case, focus: &str) -> Vec<Vio
     let _ = std::fs::remove_file(&cf);
     let _ = std::fs::remove_file(&of);
     if text.ends_with("DONE\n") {
-        let line = text.lines().next().unwrap_or("[]");
+        let line = text.lines().find_map(|l| l.strip_prefix("RESULT ")).unwrap_or("[]");
         let v: Value = serde_json::from_str(line).unwrap_or(json!([]));
         return v
             .as_array()
@@ -223,9 +260,18 @@ pub fn run_case_isolated(sc: &dyn Scenario, case: &Case, focus: &str) -> Vec<Vio
             })
             .unwrap_or_default();
     }
+    let last_panic = text.lines().filter_map(|l| l.strip_prefix("P ")).last().unwrap_or("").to_string();
     match sc.death_property(focus) {
-        Some(p) => vec![Violation::new(p, format!("{}/process-death/{}", p, describe_exit(&status)), format!("worker process died ({}) while running the case", describe_exit(&status)))],
+        Some(p) => vec![Violation::new(p, death_signature(p, &status, &last_panic), format!("worker process died ({}) while running the case; last panic: {}", describe_exit(&status), last_panic))],
         None => vec![],
+    }
+}
+
+fn death_signature(p: &str, status: &std::process::ExitStatus, last_panic: &str) -> String {
+    if last_panic.is_empty() {
+        format!("{}/process-death/{}", p, describe_exit(status))
+    } else {
+        format!("{}/process-death/{}/{}", p, describe_exit(status), panic_class(last_panic))
     }
 }
 
@@ -287,8 +333,16 @@ fn run_chunk(sc: &dyn Scenario, focus: &str, seed: u64, tier: &str, chunk: &Chun
         let mut last_started: Option<u64> = None;
         let mut last_done: Option<u64> = None;
         let mut done = false;
+        let mut last_panic = String::new();
         let mut r = res.lock().unwrap();
         for line in text.lines() {
+            if let Some(rest) = line.strip_prefix("P ") {
+                last_panic = rest.to_string();
+                continue;
+            }
+            if line.starts_with("S ") {
+                last_panic.clear();
+            }
             if let Some(rest) = line.strip_prefix("S ") {
                 last_started = rest.parse().ok();
             } else if let Some(rest) = line.strip_prefix("R ") {
@@ -320,7 +374,7 @@ fn run_chunk(sc: &dyn Scenario, focus: &str, seed: u64, tier: &str, chunk: &Chun
                 r.runs += 1;
                 r.cov.hit("worker_deaths");
                 match sc.death_property(focus) {
-                    Some(p) => r.violations.push((i, Violation::new(p, format!("{}/process-death/{}", p, describe_exit(&status)), format!("worker died ({}) while running case index {}", describe_exit(&status), i)))),
+                    Some(p) => r.violations.push((i, Violation::new(p, death_signature(p, &status, &last_panic), format!("worker died ({}) while running case index {}; last panic: {}", describe_exit(&status), i, last_panic)))),
                     None => r.deaths_inconclusive += 1,
                 }
                 start = i + 1;
@@ -330,7 +384,7 @@ fn run_chunk(sc: &dyn Scenario, focus: &str, seed: u64, tier: &str, chunk: &Chun
                 return;
             }
         }
-        if attempt > 64 {
+        if attempt > sc.chunk() + 8 {
             r.harness_errors.push("too many worker restarts in one chunk".to_string());
             return;
         }
@@ -503,9 +557,13 @@ pub fn check_main(property: &str, tier: &str) -> i32 {
             groups.entry(v.signature.clone()).or_default().push((i, v));
         }
         let mut handled = 0;
+        let max_min: usize = std::env::var("VERIF_MAX_MINIMISE").ok().and_then(|s| s.parse().ok()).unwrap_or(8);
+        for (sig, list) in groups.iter() {
+            println!("  signature {} : {} case(s), first index {}", sig, list.len(), list[0].0);
+        }
         for (sig, list) in groups {
             let (idx, v) = &list[0];
-            if handled >= 6 {
+            if handled >= max_min {
                 println!("note: further violation signature {} ({} case(s)) not minimised (cap reached)", sig, list.len());
                 violation_count += 1;
                 exit_code = 1;
